@@ -682,3 +682,6 @@ impl fmt::Display for DatetimeParseError {
 }
 
 impl error::Error for DatetimeParseError {}
+
+#[cfg(kani)]
+include!(concat!(env!("TOML_VERIF_KANI"), "/toml_datetime/datetime.rs"));
